@@ -9,6 +9,7 @@ import (
 	"fmt"
 	"io"
 	"strconv"
+	"strings"
 	"unicode"
 	"unicode/utf16"
 	"unicode/utf8"
@@ -282,7 +283,9 @@ func (d *Decoder) decodeNumber(majorByte byte) (tok.TokenType, int64, uint64, fl
 	s := string(d.r.StopTrack())
 	if i, err := strconv.ParseInt(s, 10, 64); err == nil {
 		return tok.TInt, i, 0, 0, nil
-	} else if err.(*strconv.NumError).Err == strconv.ErrRange {
+	} else if err.(*strconv.NumError).Err == strconv.ErrRange && !strings.ContainsAny(s, ".eE") {
+		// (A long mantissa makes ParseInt report a range error before it ever reaches the
+		// fraction or exponent; such literals are floats and are parsed as floats below.)
 		// Positive integers beyond int64 may still fit the unsigned token type.
 		if u, uerr := strconv.ParseUint(s, 10, 64); uerr == nil {
 			return tok.TUint, 0, u, 0, nil
